@@ -33,7 +33,9 @@ LEAN_MODULES = ["LunaVerif.Props.C20", "LunaVerif.Lemmas.C20CycAbs", "LunaVerif.
                 "LunaVerif.Lemmas.C20Device", "LunaVerif.Lemmas.C20Control",
                 # the control endpoint keeps the slot contract (assume/guarantee, over C07's closed loop sys2Step)
                 "LunaVerif.Lemmas.C20CtrlBase", "LunaVerif.Lemmas.C20CtrlDefs", "LunaVerif.Lemmas.C20CtrlBlk",
-                "LunaVerif.Lemmas.C20CtrlContract", "LunaVerif.Lemmas.C20CtrlExamples"]
+                "LunaVerif.Lemmas.C20CtrlContract", "LunaVerif.Lemmas.C20CtrlExamples",
+                # ... wired into the closed device as the rest slot: restHolds becomes a theorem
+                "LunaVerif.Lemmas.C20DeviceCtl", "LunaVerif.Lemmas.C20DeviceCtlExamples"]
 DRIVER = "Driver/C20.lean"
 REQUIRED_THEOREMS = ["mux_single_source", "generator_idle_unless_stream_valid", "handshake_idle_unless_requested",
                      "every_response_is_handshake_or_crc_valid_data", "response_only_after_addressed_token_or_data",
@@ -50,7 +52,10 @@ REQUIRED_THEOREMS = ["mux_single_source", "generator_idle_unless_stream_valid", 
                      # control endpoint (C07 cycle model), one-cycle lemmas
                      "ctrl_requests_only_after_pulse", "ctrl_no_handshake_and_data_together",
                      # control endpoint + handlers + serializer + block descriptor handler keep the slot contract
-                     "ctl_step", "ctrl_keeps_contract", "ctrl_keeps_contract_run"]
+                     "ctl_step", "ctrl_keeps_contract", "ctrl_keeps_contract_run",
+                     # closed device with the control endpoint as the rest slot
+                     "ctl_env", "joint_step", "restHolds_of_ctl", "ctl_closed_tx_never_during_rx",
+                     "ctl_closed_transmitters_exclusive", "ctl_closed_tx_only_in_response_window"]
 RULE = ("cases = 'mux' (number of inputs x random valid/data patterns, one-hot and overlapping) and 'full' (descriptor set, "
         "endpoint set {bulk IN, bulk OUT, status}, extra handlers) x adaptive LegalHost script (control transfers, bulk IN "
         "with lost/corrupted handshakes and retries, bulk OUT with retransmissions / overflow / PING, status polls, "
@@ -72,6 +77,13 @@ ASSUMPTIONS = dev_ctl.ASSUMPTIONS + [
     "contract of Lemmas/C20Contract.lean w.r.t. the pulses not addressed to the bulk IN / bulk OUT / status endpoint, and the "
     "reset sequencer does not transmit; handshakes_in, the user side of the streams, the device address and the "
     "halt-clear strobe are arbitrary",
+    "closed device with its control endpoint (ctl_closed_tx_never_during_rx, restHolds_of_ctl; Lemmas/C20DeviceCtl.lean): hostOk "
+    "as above; the control endpoint's number differs from the other three endpoints'; 3 <= L; decHolds = in every cycle: "
+    "setup_decoder.ack only together with the receiver's ready_for_response while the tokenizer shows SETUP, "
+    "packet.received only while the tokenizer shows SETUP; while the control slot is armed or sending no packet.received, "
+    "no host ACK forwarded to the request handlers and setup.type unchanged; the decoder's timer.start only in the cycle "
+    "after a reception ended; the handler's start_position fits position_in_stream when the descriptor handler leaves "
+    "IDLE (the host does not ask for more data after the short packet); the reset sequencer does not transmit",
 ]
 PARTIAL = ("Proved: the transaction-level theorems for every state and event of the event-level model (tied to the real device "
            "event by event), and at the cycle level 'tx_valid implies not rx_active', 'tx_valid only inside a response window', "
@@ -99,12 +111,20 @@ PARTIAL = ("Proved: the transaction-level theorems for every state and event of 
            "received, no forwarded host ACK, setup.type unchanged; start_position fits position_in_stream when the descriptor "
            "handler leaves IDLE (both of the last two are shown necessary by kernel-evaluated runs: a SETUP in mid-stream cuts "
            "tx.valid; a host that keeps asking after the short packet makes the block handler present data without first). "
-           "STILL MISSING for restHolds: (i) the setup decoder is an input of that loop (received, ack, SetupPacket "
-           "registers) - its composition with the shared tokenizer/timer/CRC (decoder ACK = receiver's ready_for_response, "
-           "timer.start = new_packet one cycle after a reception, registers stable outside a SETUP reception) is not proved; "
-           "(ii) ctlEnv is not yet derived from hostOk + the packet-layer invariant inside the closed device (the loop is not "
-           "wired into Lemmas/C20Device.lean as the rest slot; the handshake detector that produces handshakes_in.ack is not "
-           "part of DevCyc); the closed-loop "
+           "This loop is WIRED INTO the closed device as the rest slot (Lemmas/C20DeviceCtl.lean): ctlEnv is derived from the "
+           "packet layer's invariant (ctl_env: pulse decode, exclusive PID decode, no pulse while an answer is owed or under "
+           "way) and decOk, so restHolds is now a THEOREM (restHolds_of_ctl) and the three closed-device theorems hold for "
+           "the device WITH its control endpoint under hostHolds + decHolds (ctl_closed_tx_never_during_rx, "
+           "ctl_closed_transmitters_exclusive, ctl_closed_tx_only_in_response_window; a kernel-evaluated control read through "
+           "the whole device reproduces the reference ACK and DATA1+CRC16 bytes). STILL ASSUMED (decHolds, see ASSUMPTIONS): "
+           "the setup decoder (received, ack, SetupPacket registers, its timer.start), the handshake detector "
+           "(handshakes_in.ack) and the reset sequencer are inputs of that device - the decoder's composition with the shared "
+           "tokenizer/timer/CRC (decoder ACK = receiver's ready_for_response after a SETUP token, received / register "
+           "changes only at the end of a SETUP data packet, i.e. never inside an open response window, timer.start = "
+           "new_packet one cycle after a reception) is NOT proved (it is what the slot-contract columns of the 'cyc' cases "
+           "check on the real control endpoint in every co-simulated cycle), nor is 'no host ACK inside an open response "
+           "window' (the handshake detector is not part of DevCyc); the start_position clause is a legal-host assumption; "
+           "the closed-loop "
            "WIRING of the endpoint models (Lemmas/C20Device.lean, read off stream.py/status.py/endpoint.py) is not itself "
            "co-simulated as a whole - each "
            "endpoint model and the packet layer are, separately; (b) the refinement from cycles to events beyond the "
